@@ -37,6 +37,10 @@ def run(ck: Checker):
     check_submit_wrappers(ck, 'C01-6')
     ck.rule('C01-7', 'the executors of mpservice.concurrent.futures hand calls through unchanged: submit forwards fn, *args, **kwargs on both branches of loud_exception; the loud wrappers return the value and re-raise the exception (AGREE+EXITS)', minimum=4)
     check_executor_wrappers(ck, 'C01-7')
+    ck.rule('C01-9', 'every element gets its call whatever the worker function does: the executor a parmapper submits to is constructed by that iteration (ORIGIN) — on a pool shared between streams a worker function that itself runs a parmap starves the outer stream of threads and no output is ever produced', minimum=2)
+    from .c08 import check_private_pool
+
+    check_private_pool(ck, 'C01-9')
     ck.rule('C01-8', "the feeder's own parameters do not share a keyword namespace with the worker function's keyword arguments (positional-only) — 'for any worker function' includes one with a keyword named q or to_stop", minimum=2)
     check_feeder_namespace(ck, 'C01-8')
 
